@@ -178,6 +178,7 @@ class ListGen:
             rows.append({"type": "send_message", "row_id": f"a{i}", "edges": [edge("3", "{{" + c + "}}", "", r.choice(["", "has_phrase", "has_any_word"]), nm)],
                          "arg": "you said {{" + c + "}}", "choices": ["{{" + c + "}}", "{{" + r.choice(cs) + "}}", "{{" + c + "}}"]})
         feat(self.f, "router:templated-tests", len(tests))
+        feat(self.f, "choices:templated-from-data-row", 2 + len(tests))
         its = self.bag(LOOP_ITEMS, 2, 4)
         self.note("loop_items", its)
         rows.append({"type": "begin_for", "row_id": "", "edges": [edge("3")], "arg": its, "loop_variable": [r.choice(["item", "word"])]})
